@@ -403,6 +403,24 @@ def run(chk):
     r9.ob("ChaiScript_Basic::add_global_const forwards to the checking engine function", okf, fw[0].where, fw[0]["q"], "does not forward")
     r9.require(11, "const-creation obligations")
 
+    # ------------------------------------------------------------------ R7.10 elements of const containers
+    r10 = chk.rule("R7.10", "a `const Boxed_Value &` handed out by a C++ function (element of a const Vector / Map, member of a const Pair) reaches the script as a const value, not as the mutable handle itself",
+                   "mutating container members fail on a const container: its elements keep their values")
+    hr = {q: r for q, r in prog.records.items() if q.startswith("chaiscript::dispatch::detail::Handle_Return<") and "Boxed_Value" in q and "std::" not in q}
+    r10.anchor(any(q.endswith("<const chaiscript::Boxed_Value &>") for q in hr), "Handle_Return<const Boxed_Value &> (found %s)" % sorted(x.split("Handle_Return")[-1] for x in hr))
+    for q, rec in sorted(hr.items()):
+        form = q[q.index("<") + 1:-1]
+        if not (form.startswith("const ") and form.rstrip().endswith("&")):
+            continue
+        own = [m for m in rec.get("methods", []) if m.get("name") == "handle" and not m.get("implicit")]
+        bases = [b.get("q") for b in rec.get("bases", [])]
+        shares_mutable_form = any(b and b.endswith("<chaiscript::Boxed_Value>") for b in bases) and not own
+        r10.ob("chaiscript::dispatch::detail::Handle_Return<%s>/a const handle is returned for a const Boxed_Value result" % form, not shares_mutable_form,
+               "%s:%d" % (rec["file"], rec["line"]), q,
+               "the specialisation inherits handle() from Handle_Return<Boxed_Value>: the element's own (mutable) handle is returned, so `CV[0] = 42` and "
+               "`for (x : CV) { x = 99 }` change the contents of a const Vector")
+    r10.require(1, "const Boxed_Value return forms")
+
 
 # =============================================================================== helpers
 
